@@ -288,10 +288,11 @@ impl Model {
                 .cate_str(u32::from(cate_id))
                 .unwrap();
             let feature_set = merged_model.feature_sets[config.surfaces.len() + i];
+            // A category name is any token without white space in char.def: it may need quoting here.
+            utils::quote_csv_cell(&mut unk_handler_wtr, cate_string.as_bytes())?;
             writeln!(
                 &mut unk_handler_wtr,
-                "{},{},{},{},{}",
-                cate_string,
+                ",{},{},{},{}",
                 feature_set.left_id,
                 feature_set.right_id,
                 (-feature_set.weight * weight_scale_factor) as i16,
